@@ -20,7 +20,6 @@ pub mod libk;
 pub mod c12;
 pub mod misc;
 pub mod c18;
-pub mod snext;
 
 #[cfg(not(kani))]
 pub fn registry() -> Vec<(&'static str, fn(&mut nd::TapeNd))> {
@@ -40,6 +39,5 @@ pub fn registry() -> Vec<(&'static str, fn(&mut nd::TapeNd))> {
     v.extend(c12::registry());
     v.extend(misc::registry());
     v.extend(c18::registry());
-    v.extend(snext::registry());
     v
 }
